@@ -33,3 +33,19 @@ SWAP_HARNESS(h_leswap32, little_endian_swap32, uint32_t)
 #ifdef VF_ENTRY_h_leswap64
 SWAP_HARNESS(h_leswap64, little_endian_swap64, uint64_t)
 #endif
+
+#ifdef VF_ENTRY_h_swap16s
+#undef SWAP_MAXN
+#define SWAP_MAXN 12
+SWAP_HARNESS(h_swap16s, big_endian_swap16, uint16_t)
+#endif
+#ifdef VF_ENTRY_h_swap32s
+#undef SWAP_MAXN
+#define SWAP_MAXN 4
+SWAP_HARNESS(h_swap32s, big_endian_swap32, uint32_t)
+#endif
+#ifdef VF_ENTRY_h_swap64s
+#undef SWAP_MAXN
+#define SWAP_MAXN 4
+SWAP_HARNESS(h_swap64s, big_endian_swap64, uint64_t)
+#endif
